@@ -10,7 +10,8 @@ Inductive vspec :=
 | SCountDistinctU (fs : list bytes)
 | SCountSimilar (gs : list bytes) (out : bytes)
 | SStats1 (interp : bool) (accs : list accreq) (fs gs : list bytes)
-| SStats1W (interp : bool) (accs : list accreq) (fs gs : list bytes) (n : nat).
+| SStats1W (interp : bool) (accs : list accreq) (fs gs : list bytes) (n : nat)
+| SAcc (interp : bool) (a : accname) (vs : list val).     (* a DSL statistics function on an array of numbers *)
 
 Definition run_spec (v : vspec) (rs : list record) : list orec :=
   match v with
@@ -20,6 +21,7 @@ Definition run_spec (v : vspec) (rs : list record) : list orec :=
   | SCountSimilar gs out => verb_count_similar gs out rs
   | SStats1 i accs fs gs => verb_stats1 i accs fs gs rs
   | SStats1W i accs fs gs n => verb_stats1_w i accs fs gs n rs
+  | SAcc i a vs => [[(B "r", run_acc i a vs)]]
   end.
 
 Definition obsval := (bytes * option Q)%type.
